@@ -128,11 +128,12 @@ theorem ldw2_ctl_uniqI_other (l : List Symbol) (inst : Nat) (bytes : Bytes) (x :
 
 theorem ldw2_sendRequest_multi (w w2 : Cli.World Ext) (rs : Results) (seq : Nat) (reqs : List WriteReq) (raw : Option Bytes)
     (h : sendUnit hookAll w seq (Cl.multiMsg (reqs.map fun q => Cl.writeMsg q.path q.typeBytes q.elements q.value)) =
-      (w2, .ok raw)) :
+      (w2, .ok raw))
+    (hcs : (tagResp raw).p.commandStatus = some 0) :
     sendRequest hookAll w rs (.multiWrite seq reqs) =
       (w2, multiWriteResults rs (reqs.zip (embeddedReplies (tagResp raw).p.data))) := by
   unfold sendRequest
-  simp only [h]
+  simp only [h, multiPacketError, hcs, if_true]
 
 /-- (f) the result loop of `write` for an error-free one-element request without bit number, looked up in a results
     table that holds an error-free Tag for it -/
@@ -292,7 +293,7 @@ theorem ldw2_write_two (cfg : Cfg) (w : Cli.World Ext) (sess : Nat) (cidb : Byte
         [Cl.writeMsg pa (le 2 ca) 1 ba, Cl.writeMsg pb (le 2 cb) 1 bb] := rfl
     rw [← hmap] at hsend
     rw [ldw2_sendRequest_multi ({ w with drv := w.drv.nextSeq.2.nextSeq.2.nextSeq.2 } : Cli.World Ext) w2 []
-      w.drv.nextSeq.2.nextSeq.2.nextSeq.1 _ _ hsend]
+      w.drv.nextSeq.2.nextSeq.2.nextSeq.1 _ _ hsend (ldr_tagResp_commandStatus _ _ _ _)]
     dsimp only
     rw [hdata, hemb]
     have hmr : multiWriteResults []
